@@ -4,3 +4,4 @@ import RattrDriver.C03
 import RattrDriver.AstJson
 import RattrDriver.Visit
 import RattrDriver.C20
+import RattrDriver.C10
